@@ -110,7 +110,7 @@ def run(tier, seed, replay=None):
             res.violation("C12/oracles-disagree", "python oracle rejects a result the rust oracle accepted: %s %s" % (s, why), s)
     # (2) free-form strings, judged in Python with ICU's own parse of each entry
     rng = rng_for(seed, "C12")
-    n = 20000 if tier == "quick" else 200000
+    n = 20000 if tier == "quick" else 1000000
     cases = []
     for i in range(n):
         k = rng.randint(1, 6)
@@ -146,7 +146,7 @@ def run(tier, seed, replay=None):
     res.extra["free_form_usable_entries"] = usable_seen
     # (3) macro-generated enums
     crates = []
-    for ci in range(1 if tier == "quick" else 4):
+    for ci in range(1 if tier == "quick" else 12):
         sup = rng.sample(UNIVERSE, rng.randint(3, 7))
         proj = {"cfg": {"default": sup[0], "locales": rng.sample(sup, len(sup)), "namespaces": None, "inherits": {}, "locales_dir": None},
                 "data": {(None, l): [["k", {"k": "lit", "ty": "str", "v": "v"}]] for l in sup}}
